@@ -82,6 +82,7 @@ func (tr *Trans) call(c *ssa.CallCommon, in ssa.Instruction, resT types.Type) Va
 		}
 		key := ifaceMethodKey(c.Value.Type(), c.Method.Name())
 		tr.g.calleesUsed[key] = "invoke"
+		tr.noCallCheck(key, in)
 		if ct := tr.g.specs.Contracts[key]; ct != nil {
 			return tr.applyContract(ct, nil, c.Signature(), args, in, resT, key, true)
 		}
@@ -157,15 +158,7 @@ func (tr *Trans) call(c *ssa.CallCommon, in ssa.Instruction, resT types.Type) Va
 
 func (tr *Trans) staticCall(fn *ssa.Function, binds []Val, args []Val, in ssa.Instruction, resT types.Type) Val {
 	key := fn.String()
-	if top := tr.g.topTr; top != nil && top.contract != nil && tr.g.dry == 0 && tr.g.opts.Safety {
-		for _, nc := range top.contract.NoCalls {
-			if strings.HasSuffix(key, nc.Src) {
-				tr.g.noCallN++
-				tr.e.oblige(&Obl{Name: fmt.Sprintf("%s#nocall:%s@%d", top.label, nc.Label, tr.g.noCallN), Kind: "nocall", Props: nc.Props,
-					Cond: tr.rc, Goal: tFalse, Pos: tr.posOf(in), Fn: top.label})
-			}
-		}
-	}
+	tr.noCallCheck(key, in)
 	ct := tr.g.specs.Contracts[key]
 	if ct != nil && ct.Thin {
 		ct = nil
@@ -242,6 +235,21 @@ func (tr *Trans) staticCall(fn *ssa.Function, binds []Val, args []Val, in ssa.In
 		return res
 	}
 	return tr.havocCall(key, args, resT, in)
+}
+
+// noCallCheck: the function under verification declared `nocall` for this callee (static call or interface method).
+func (tr *Trans) noCallCheck(key string, in ssa.Instruction) {
+	top := tr.g.topTr
+	if top == nil || top.contract == nil || tr.g.dry > 0 || !tr.g.opts.Safety {
+		return
+	}
+	for _, nc := range top.contract.NoCalls {
+		if strings.HasSuffix(key, nc.Src) {
+			tr.g.noCallN++
+			tr.e.oblige(&Obl{Name: fmt.Sprintf("%s#nocall:%s@%d", top.label, nc.Label, tr.g.noCallN), Kind: "nocall", Props: nc.Props,
+				Cond: tr.rc, Goal: tFalse, Pos: tr.posOf(in), Fn: top.label})
+		}
+	}
 }
 
 // interfere models other goroutines at a lock acquisition: if this function has already released a lock of this
